@@ -165,7 +165,9 @@ PROPS = {
         "harness": "c17",
         "theorems": ["DL.C17_tables", "DL.C17_parameter_rows", "DL.C17_constant_rows", "DL.C17_option", "DL.C17_option_absent", "DL.C17_coupling",
                      "DL.C17_expand_node", "DL.C17_expand_combinations", "DL.C17_expand_leaf", "DL.C17_expand_replace", "DL.C17_policy"],
-        "partial": ["the reading of the options text into statements (ampgen.lark, Lark LALR) is tied by the correspondence check, not proved",
+        "partial": ["the reading of the options text into statements is modelled by the scannerless reader DL/Model/AmpRead.lean (readAmpText / readAmp) "
+                    "and tied to Lark on the repository's grammar on every run (well-formed, malformed and fixed edge-case texts, accept/reject and "
+                    "statements); there are no theorems about that reader yet, and the Lark engine itself is modelled, not verified",
                     "exp(i phase) is not modelled: couplings stay symbolic (interpretation flag + the two numerals); the harness compares the "
                     "complex numbers to 1e-12", "particle_from_string_name is an oracle parameter (sent with each operation)"],
         "assumptions": ["fix flags are integers (AmpGen convention 0/1/2)"],
